@@ -5,6 +5,7 @@ import shutil
 import signal
 import subprocess
 import tempfile
+import time
 
 from lib import vf
 
@@ -25,26 +26,36 @@ def prebuild():
 def cases(tier):
     out = []
     q = tier == "quick"
-    n = 2 if q else 4
+    n = 3 if q else 4
     faults = ["stop", "exit", "return", "segv", "abrt", "fpe", "ill", "int", "term"]
     for fault in faults:
         for k in range(0, n + 1):
-            js = sorted(set([0, k])) if q else list(range(0, k + 1))
-            if fault in ("stop", "exit", "return"):
-                js = js + [-1]          # backend asleep (woken only by notify/stop)
-            for j in js:
-                for clock in (("system",) if q else ("system", "tsc")):
-                    for second in (("none", "finished") if q else ("none", "finished", "alive")):
-                        for cycles in ((1, 2) if (fault == "stop" and (not q or j in (0, -1))) else (1,)):
-                            out.append({"fault": fault, "n": n, "k": k, "j": j, "clock": clock, "second": second, "cycles": cycles})
+            for second in ("none", "finished", "alive"):
+                pre = 0 if second == "none" else 2
+                total = k + pre
+                # position of the second thread's statements among the main thread's (0: it registers first)
+                for tpos in ([0] if second == "none" else list(range(0, k + 1))):
+                    # flusher thread: none, or just before the second thread (quick) / every position up to it (thorough)
+                    if second == "none":
+                        fposs = [-1, k] if q else [-1] + list(range(0, k + 1))
+                    else:
+                        fposs = [-1, tpos] if q else [-1] + list(range(0, tpos + 1))
+                    for fpos in fposs:
+                        js = list(range(0, total + 1))
+                        if fault in ("stop", "exit", "return"):
+                            js = js + [-1]          # backend asleep (woken only by notify/stop)
+                        for j in js:
+                            for clock in (("system",) if (q or fpos > 0) else ("system", "tsc")):
+                                for cycles in ((1, 2) if (fault == "stop" and fpos < 0 and (not q or j in (0, -1))) else (1,)):
+                                    out.append({"fault": fault, "n": n, "k": k, "j": j, "clock": clock, "second": second,
+                                                "cycles": cycles, "tpos": tpos, "fpos": fpos})
     return out
 
 
 def expected_lines(c):
-    lines = []
+    lines = ["M%d" % i for i in range(1, c["k"] + 1)]
     if c["second"] != "none":
-        lines += ["T1", "T2"]
-    lines += ["M%d" % i for i in range(1, c["k"] + 1)]
+        lines[c["tpos"]:c["tpos"]] = ["T1", "T2"]
     if c["fault"] in SIGS:
         num = int(SIGS[c["fault"]])
         lines.append("Received signal: %s (signum: %d)" % (DESC[c["fault"]], num))
@@ -60,6 +71,7 @@ def run_case(exe, base, idx, c):
     args = [exe, "--log", path]
     for k2, v in c.items():
         args += ["--" + k2, str(v)]
+    t0 = time.time()
     try:
         p = subprocess.run(args, stdout=subprocess.PIPE, stderr=subprocess.PIPE, timeout=90)
         rc = p.returncode
@@ -85,11 +97,17 @@ def run_case(exe, base, idx, c):
     else:
         want_rc = 0
     if rc == -int(signal.SIGALRM):
-        return c, "hang", "child killed by its own 60 s / the handler's 20 s alarm (rc %d) stderr: %s" % (rc, err), got or []
+        return c, "hang", "child killed by SIGALRM after %.0f s (its own safety alarm is 60 s, the signal handler's 20 s) stderr: %s" % (time.time() - t0, err), got or []
     if rc != want_rc:
         return c, "wrong-exit-status", "wait status %d, expected %d; stderr: %s" % (rc, want_rc, err), got or []
     if got is None:
         return c, "log-file-missing", "", []
+    if c["fault"] in SIGS:
+        # a handled signal guarantees the statements of the thread it hits (and the notice); those of other threads are not
+        # demanded - they may be absent, but never duplicated or out of place
+        for t in ("T1", "T2"):
+            if t not in got and t in want:
+                want = [x for x in want if x != t]
     if got != want:
         return c, "statements-lost-or-wrong", "file has %r expected %r" % (got[:12], want[:12]), got
     return c, "ok", "", got
@@ -99,7 +117,8 @@ def run(ctx):
     ctx.rule = ("every statement boundary k of a program of n statements x every fault {Backend::stop, exit, return from main, "
                 "SIGSEGV, SIGABRT, SIGFPE, SIGILL, SIGINT, SIGTERM with the built-in handler} x backend progress at the fault "
                 "(provably stuck in a gated sink after exactly j writes, j = 0..k, or asleep with a one-hour sleep) x clock source "
-                "x second thread {none, finished, alive and parked} x start/stop cycles {1, 2}; each case is one child process on "
+                "x second thread {none, finished, alive and parked} logging after the main thread's statement number tpos (so both "
+                "registration orders occur) x optional flusher thread blocked in flush_log() from position fpos on x start/stop cycles {1, 2}; each case is one child process on "
                 "the real Backend::start thread, judged from outside by wait status and log file content; "
                 "distinct = distinct (case, outcome) pairs")
     exe = vf.build("crashx_child", SRC, FLAGS)
@@ -113,6 +132,7 @@ def run(ctx):
         for i, (c, verdict, detail, got) in enumerate(results):
             if verdict == "hang":
                 ctx.add("children_rerun_alone")
+                ctx.notes.setdefault("rerun_alone", []).append(" ".join("--%s %s" % kv for kv in sorted(c.items())) + " :: " + detail[:200])
                 results[i] = run_case(exe, base, 100000 + i, c)
         if True:
             for c, verdict, detail, got in results:
